@@ -50,6 +50,7 @@ PROPS = {
             "lcm.ndimage._compute_indices_and_weights",
             "lcm.ndimage.map_coordinates",
             "lcm.grid_helpers.get_linspace_coordinate",
+            "lcm.grid_helpers.get_logspace_coordinate",
             "lcm.grid_helpers.linspace",
             "C15.linear-grid-roundtrip",
         ],
@@ -129,5 +130,22 @@ PROPS = {
         },
         "not_decided": ["model structures outside the skeleton family"],
         "assumptions": COMMON_ASSUMPTIONS,
+    },
+    "C14": {
+        "contracts": [
+            "lcm.function_representation.get_function_representation",
+            "lcm.function_representation._fail_if_interpolation_axes_are_not_last",
+            "lcm.ndimage.map_coordinates",
+            "lcm.ndimage._compute_indices_and_weights",
+            "lcm.grid_helpers.get_linspace_coordinate",
+            "lcm.grid_helpers.get_logspace_coordinate",
+            "C15.linear-grid-roundtrip",
+        ],
+        "families": {
+            "quick": "Space(2,2,2): 0..2 restricted states with an arbitrary indexer, 0..2 unrestricted discrete states, 0..2 continuous states (linear/log mix), input prefix 'next_' (and '' on one space); kernel ranks 1..2",
+            "thorough": "Space(2,2,3): up to 3 continuous axes (the statement's bound), both prefixes, all linear/log mixes listed in the family; kernel ranks 1..4",
+        },
+        "not_decided": ["the coordinate function of logarithmic grids is used through an uninterpreted contract (its node/monotonicity clauses are not yet discharged under C15)"],
+        "assumptions": COMMON_ASSUMPTIONS + ["indexer entries of the evaluated labels are valid positions (feasible states)"],
     },
 }
